@@ -177,6 +177,10 @@ class PbW(Contract):
         inc = (lambda j: k.incr(ad, j)) if hasattr(k, 'incr') else (lambda j: k.G(ad, j))
         return [("out[0].data' = out[0].data + ybar (*) f'(x)   (formula of %s)" % k.qual.split('.')[-1], c.forall(0, c.D, lambda j: o[j] == o0[j] + inc(j)))]
     def spec_instances(self, c, n): return list(self.kernel.spec_instances(_Adapt(c, self.amap), n)) if hasattr(self.kernel, 'defs') else []
+    def _k(self, d): return {k: d[v] for k, v in self.amap.items() if v in d}
+    def sample_x0(self, name, rng): return self.kernel.sample_x0({v: k for k, v in self.amap.items()}.get(name, name), rng)
+    def native_scalars(self, cfg, rng): return {}
+    def oracle(self, inp, scal, cfg): return {'out.0.data': self.kernel.oracle(self._k(inp), scal, 'distinct')['out']}
 
 def _pbw(name, kernel_key):
     from . import pullbacks as PBK
@@ -184,3 +188,28 @@ def _pbw(name, kernel_key):
     return register(cls)
 for _n in ('exp', 'log', 'sqrt', 'square', 'negative', 'expm1', 'log1p', 'reciprocal', 'erf', 'erfi', 'logit', 'expit'):
     _pbw(_n, '_pb_' + _n)
+
+
+@register
+class PbInvW(Contract):
+    """UTPM.pb_inv(ybar, x, y, out=(xbar,)): xbar.data updated by the formula of _inv_pullback (matrix cells), nothing else written"""
+    file = 'algopy/utpm/utpm.py'; qual = 'UTPM.pb_inv'; alg = 'mat'
+    objs = ('ybar', 'x', 'y'); objtuples = {'out': 1}
+    arrays = ('ybar.data', 'x.data', 'y.data', 'out.0.data'); modifies = ('out.0.data',); returns = 'any'
+    cfgs = {'distinct': {}}; dataflow = True; timeout_ms = 8000; cex_D = ()
+    property_ids = ('C03', 'C06', 'C07', 'C14')
+    def axioms(self, alg):
+        from .linalg import M
+        return M.basic
+    def ensures(self, c):
+        from .linalg import REG as LREG
+        k = LREG['_inv_pullback']; ad = _Adapt(c, PbW.amap)
+        lab, f = k.ensures(_AdaptCur(c, PbW.amap))[0]
+        return [("out[0].data updated by the formula of _inv_pullback: " + lab, f)]
+    def cell_shapes(self, cfg): return {'ybar.data': (3, 3), 'x.data': (3, 3), 'y.data': (3, 3), 'out.0.data': (3, 3)}
+    def oracle(self, inp, scal, cfg):
+        from .linalg import REG as LREG
+        return {'out.0.data': LREG['_inv_pullback'].oracle({k: inp[v] for k, v in PbW.amap.items()}, scal, 'distinct')['out']}
+
+class _AdaptCur(_Adapt):
+    def cur(s, name): return s.c.cur(PbW.amap.get(name, name))
